@@ -44,21 +44,29 @@ def filter_cond[**ParamType, RetType](
         ValueError: If the non-array leaves of the outputs of `true_fun` and
             `false_fun` are not identical.
     """
-    true_result = true_fun(*args, **kwargs)
-    false_result = false_fun(*args, **kwargs)
+    result_static = {}
 
-    result_arrays, result_static = eqx.partition(
-        (true_result, false_result), eqx.is_array
-    )
+    def branch(name, fun):
+        def run():
+            arrays, static = eqx.partition(fun(*args, **kwargs), eqx.is_array)
+            result_static[name] = static
+            return arrays
 
-    if not eqx.tree_equal(result_static[0], result_static[1]):
+        return run
+
+    # Both branches are traced (which fills result_static), only the selected one
+    # is executed, so side effects inside a branch happen only when it is taken.
+    return_result = lax.cond(pred, branch(True, true_fun), branch(False, false_fun))
+
+    # With jit disabled only the selected branch runs, so only one entry exists.
+    statics = list(result_static.values())
+    if len(statics) == 2 and not eqx.tree_equal(statics[0], statics[1]):
         raise ValueError(
             "Non-array leaves of true_fun and false_fun outputs must be identical."
-            f"Got\n{result_static[0]}\nand\n{result_static[1]}"
+            f"Got\n{result_static[True]}\nand\n{result_static[False]}"
         )
 
-    return_result = lax.cond(pred, lambda: result_arrays[0], lambda: result_arrays[1])
-    return eqx.combine(return_result, result_static[0])
+    return eqx.combine(return_result, statics[0])
 
 
 def filter_scan[Carry, X, Y](
